@@ -138,4 +138,29 @@ def step (B : Nat) (v : Bits) (o : Op) : Bits :=
 
 def run (B : Nat) (v : Bits) (ops : List Op) : Bits := ops.foldl (step B) v
 
+/-! the same history on the abstract vector of `std::bitset<B>` blocks -/
+def abs (B : Nat) (v : Bits) : List Bits := (List.range (size B v)).map (getRepr B v)
+
+def specStep (B : Nat) (l : List Bits) : Op → List Bits
+  | .resize n b => if n ≤ l.length then l.take n else l ++ List.replicate (n - l.length) (List.replicate B b)
+  | .clear => []
+  | .assignAll b => l.map (fun _ => List.replicate B b)
+  | .setBlock i => l.modify i (fun _ => List.replicate B true)
+  | .resetBlock i => l.modify i (fun _ => List.replicate B false)
+  | .flipBlock i => l.modify i bNot
+  | .setOne i j b => if j < B then l.modify i (fun x => x.set j b) else l
+  | .flipOne i j => if j < B then l.modify i (fun x => x.set j (!(x.getD j false))) else l
+  | .assignBool i b => l.modify i (fun _ => List.replicate B b)
+  | .assignBits i x => if x.length = B then l.modify i (fun _ => x) else l
+  | .assignRef i k => match l[k]? with
+    | some x => l.modify i (fun _ => x)
+    | none => l
+  | .andBits i x => if x.length = B then l.modify i (fun y => bAnd y x) else l
+  | .orBits i x => if x.length = B then l.modify i (fun y => bOr y x) else l
+  | .xorBits i x => if x.length = B then l.modify i (fun y => bXor y x) else l
+  | .shl i n => l.modify i (fun y => bShl y n)
+  | .shr i n => l.modify i (fun y => bShr y n)
+
+def specRun (B : Nat) (l : List Bits) (ops : List Op) : List Bits := ops.foldl (specStep B) l
+
 end DV.C11.BV
